@@ -354,6 +354,56 @@ def rule_no_codepoint_narrowing(ctx):
     r.floor(1)
 
 
+def rule_no_bytes_as_codepoints(ctx):
+    """Chunk::Text() / UncText::c_str() is the UTF-8 *byte* string of a chunk (kept for logging); the UncText methods that take
+    `const char *` or std::string store every byte as one code point.  Feeding one into the other turns U+00F6 into the two
+    code points 0xC3 0xB6 (written as four bytes) - or, through the signed char, into negative values that write_char() drops"""
+    db = ctx.db
+    r = ctx.rule("no-bytes-as-codepoints", "no argument of a byte-string entry of UncText (constructor, set, append, =, += taking const char * / "
+                 "std::string) is, or is a local std::string built from, Chunk::Text() / UncText::c_str()")
+    n_calls = 0
+    for f in sorted(db.funcs.values(), key=lambda g: (g.file, g.l0)):
+        if not f.file.startswith("src/") or f.file == "src/unc_text.cpp":
+            continue
+        feeds = {}
+        for n in f.all_nodes():
+            if n["k"] == "call" and "basic_string" in (n.get("c") or "") and "o" in n and n.get("a"):
+                o = f.nodes.get(n["o"])
+                if o is not None and o["k"] == "ref":
+                    feeds.setdefault(o["n"], []).append(" ".join(expr_str(f, a) for a in n["a"]))
+            if n["k"] == "decl":
+                for v in n["vars"]:
+                    if v.get("init") is not None and "string" in (v.get("t") or ""):
+                        feeds.setdefault(v["n"], []).append(expr_str(f, v["init"]))
+        for n in f.all_nodes():
+            if n["k"] not in ("call", "ctor") or "UncText" not in (n.get("c") or "") or not n.get("a"):
+                continue
+            base = (n.get("c") or "").split("::")[-1]
+            if base not in ("UncText", "set", "append", "operator=", "operator+="):
+                continue
+            g = db.func_of_call(f, n) if n["k"] == "call" else None
+            sig = g.d["sig"] if g is not None else (n.get("sig") or "")
+            a0 = f.nodes.get(n["a"][0])
+            while a0 is not None and a0["k"] == "cast":
+                a0 = f.nodes.get(a0["a"][0])
+            if a0 is None or a0["k"] in ("str", "int", "chr"):
+                continue
+            at = (a0.get("t") or "")
+            if not ("char" in sig or "string" in sig or "char" in at or "string" in at):
+                continue
+            n_calls += 1
+            r.seen()
+            texts = [expr_str(f, a0["i"])]
+            if a0["k"] == "ref":
+                texts += feeds.get(a0["n"], [])
+            bad = [t for t in texts if re.search(r"(->|\.)Text\(\)|GetStr\(\)\.c_str\(\)|Str\(\)\.c_str\(\)", t)]
+            r.check(not bad, "%s/%s(%s)" % (f.qn.split("::")[-1], base, expr_str(f, a0["i"])[:30]), db.loc(f, n),
+                    "the UTF-8 bytes of a chunk (`%s`) are stored as code points by UncText::%s: every character beyond ASCII is corrupted or lost"
+                    % (bad[0][:60] if bad else "", base))
+    r.require(n_calls >= 10, "only %d byte-string entries of UncText with a non-literal argument found" % n_calls)
+    r.floor(10)
+
+
 def rule_enc_flow(ctx):
     db = ctx.db
     r = ctx.rule("enc-flow", "cpd.enc/cpd.bom are assigned only in uncrustify_file (from fm.enc/fm.bom and the utf8_* options); write_bom is "
@@ -412,4 +462,4 @@ def rule_enc_flow(ctx):
     r.floor(12)
 
 
-RULES = [rule_utf8_tables, rule_utf16_tables, rule_enc_switch, rule_enc_flow, rule_one_encoder, rule_no_codepoint_narrowing]
+RULES = [rule_utf8_tables, rule_utf16_tables, rule_enc_switch, rule_enc_flow, rule_one_encoder, rule_no_codepoint_narrowing, rule_no_bytes_as_codepoints]
